@@ -278,20 +278,22 @@ class MathModel(types.ModuleType):
                 setattr(self, k, _guard_native(v, f"math.{k}"))
             else:
                 setattr(self, k, v)
-        self.floor = m_floor
-        self.ceil = m_ceil
-        self.trunc = m_trunc
-        self.fmod = m_fmod
-        self.isfinite = m_isfinite
-        self.isnan = m_isnan
-        self.isinf = m_isinf
-        self.fabs = m_fabs
-        self.log2 = m_log2
-        self.sqrt = m_sqrt
-        self.radians = m_radians
-        self.degrees = m_degrees
-        self.cos = m_cos
-        self.sin = m_sin
+        for nm, fn in dict(floor=m_floor, ceil=m_ceil, trunc=m_trunc, fmod=m_fmod, isfinite=m_isfinite, isnan=m_isnan, isinf=m_isinf, fabs=m_fabs, log2=m_log2, sqrt=m_sqrt, radians=m_radians, degrees=m_degrees, cos=m_cos, sin=m_sin).items():
+            setattr(self, nm, _tracked(fn, f"math.{nm}"))
+
+
+def _tracked(fn, name):
+    """record that a library MODEL (an assumed contract) answered for a symbolic argument"""
+
+    def g(*a, **k):
+        if any(_real_isinstance(x, SymBase) for x in a):
+            from . import npmodel
+
+            npmodel.MODELS_USED.add(name)
+        return fn(*a, **k)
+
+    g.__name__ = getattr(fn, "__name__", name)
+    return g
 
 
 def _guard_native(fn, name):
